@@ -72,7 +72,7 @@ def field(base, name):
         if name in names:
             return kids(base)[names.index(name)]
         return mk("field", (name,), (base,))
-    if t == "tuple":
+    if t in ("tuple", "closure"):
         try:
             return kids(base)[int(name)]
         except (ValueError, IndexError):
